@@ -160,3 +160,20 @@ def run(ctx):
         "permutations x 2 of the operators directory listing while re-reading a 3-operator archive; non-trivial = all seed cases and non-identity permutations"
     )
     ctx.assumptions += ["recipe-order permutations are enumerated in C03", "tar member order and timestamps are not compared"]
+
+
+def replay(case):
+    """Re-execute one case without the explorer (seed cases are compared with a seed-0 run)."""
+    if case["kind"] != "seed":
+        return evaluate(case)
+    res = Result()
+    ref = _run_digest(CARDS[case["card"]], 0)
+    dg = _run_digest(CARDS[case["card"]], case["seed"])
+    if sorted(dg) != sorted(ref):
+        res.fail(f"solve/{case['card']}/member-names", f"members differ: {sorted(set(dg) ^ set(ref))}")
+    else:
+        for name in ref:
+            if dg[name] != ref[name]:
+                res.fail(f"solve/{case['card']}/content", f"member {name} differs")
+    res.outcome = "replayed"
+    return res
